@@ -62,6 +62,13 @@ func (P *Program) mergedContract(ct *Contract) (*Contract, *Contract) {
 func (P *Program) VerifyFunc(ct *Contract, fn *ssa.Function) (res *FuncResult) {
 	res = &FuncResult{Contract: ct, Fn: fn}
 	aimOn := ct.AimCheck != nil && P.aimOn != nil && P.aimOn(ct.AimCheck.Tag)
+	if !aimOn && ct.AimCheck != nil && P.aimOn != nil {
+		for _, mc := range ct.MustCall {
+			if P.aimOn(mc.Tag) {
+				aimOn = true // a check that only wants the mustcall obligations still needs the aim-mode run
+			}
+		}
+	}
 	if aimOn {
 		ct = ct.aimView()
 	}
@@ -263,7 +270,15 @@ func (P *Program) VerifyFunc(ct *Contract, fn *ssa.Function) (res *FuncResult) {
 			ex.topLocs = []Loc{}
 		}
 	}
+	if len(ct.MustCall) > 0 && ex.aim != nil {
+		hs := ArrS(SInt, SBool)
+		ex.hsorts[mustCallHeap] = hs
+		st.heap[mustCallHeap] = ex.vc.Define("mc0", hs, "((as const "+string(hs)+") false)")
+	}
 	rets := f.run(st)
+	if len(ct.MustCall) > 0 && ex.aim != nil {
+		f.mustCallObligations(ct, entry, rets)
+	}
 
 	// ensures
 	type ens struct {
